@@ -26,7 +26,7 @@ def sh(cmd, cwd, timeout=1500):
     return r.returncode, (r.stdout + r.stderr)
 meta = {"property": pid, "change": int(n), "source": "independent sub-agent, given only the property text and a scratch worktree", "ran": []}
 RECHECK = "--recheck" in sys.argv
-dst0 = "/verif/seeded/%s-%s" % (pid, n)
+dst0 = os.path.join(os.environ.get("VERIF_ROOT") or os.path.dirname(os.path.dirname(os.path.abspath(__file__))), "seeded", "%s-%s" % (pid, n))
 if RECHECK and os.path.exists(os.path.join(dst0, "meta.json")):
     old = json.load(open(os.path.join(dst0, "meta.json")))
     meta["ran"], meta["confirmed"], meta["demo_appended_to"] = old["ran"], old["confirmed"], old.get("demo_appended_to")
@@ -70,13 +70,14 @@ if not RECHECK:
 # 2. checks against the change (fresh copy without demo)
 C = copy("for_checks")
 sh("patch -p1 -d %s < %s" % (C, patch), "/")
-sys.path.insert(0, os.environ.get("VERIF_ROOT", "/verif"))
+ROOT = os.environ.get("VERIF_ROOT") or os.path.dirname(os.path.dirname(os.path.abspath(__file__)))
+sys.path.insert(0, ROOT)
 from vx import props
 ids = checks or sorted(props.PROPS)
 res = {}
 e2 = dict(os.environ, VERIF_REPO=C)
 t0 = time.time()
-r = subprocess.run(["./check"] + ids, cwd=os.environ.get("VERIF_ROOT", "/verif"), env=e2, capture_output=True, text=True)
+r = subprocess.run(["./check"] + ids, cwd=ROOT, env=e2, capture_output=True, text=True)
 summ = {}
 for l in r.stdout.split("\n"):
     if l.startswith("SUMMARY "):
@@ -91,7 +92,7 @@ meta["failed_obligations"] = [l[:200] for l in r.stdout.split("\n") if l.startsw
 meta["checks"] = res
 meta["detected_by"] = [c for c, v in res.items() if v["rc"] == 1]
 meta["inconclusive"] = [c for c, v in res.items() if v["rc"] == 2]
-dst = "/verif/seeded/%s-%s" % (pid, n)
+dst = os.path.join(ROOT, "seeded", "%s-%s" % (pid, n))
 os.makedirs(dst, exist_ok=True)
 if not RECHECK:
     shutil.copy(patch, dst); shutil.copy(demo, dst)
